@@ -1,0 +1,8 @@
+//go:build verif
+
+package tableclass
+
+import "golang.org/x/net/html"
+
+// VerifHasValidText exposes Classifier.hasValidText (read-only).
+func VerifHasValidText(e *html.Node) bool { return (&Classifier{}).hasValidText(e) }
